@@ -45,6 +45,16 @@ theorem close_never_before_later (cs : List Comp) (i j : Nat) (hij : i < j) (hj 
   rw [h1, h2]
   simp [List.filter_append, List.filter_cons, hri, hrj]
 
+/-- a failing `Close` of one component does not stop the shutdown: the close log does not depend on
+which components' `Close` fail (they are closed all the same), and the error is reported. -/
+theorem close_continues_past_errors (cs : List Comp) :
+    close cs = close (cs.map (fun c => { c with failClose := false })) ∧
+    (closeErr cs = true ↔ ∃ c ∈ cs, c.runnable = true ∧ c.failClose = true) := by
+  constructor
+  · rw [close_reverse, close_reverse]
+    simp [List.filter_map, Function.comp_def]
+  · simp [closeErr]
+
 /-! ## Start -/
 
 /-- No failure: every component is initialised, in registration order, before any is run; the
@@ -151,16 +161,16 @@ theorem findIn_spec (cs : List Named) (name : Nat) :
 /-! ## non-vacuity -/
 
 example :
-    start [⟨0, true, false, false⟩, ⟨1, false, false, false⟩, ⟨2, true, false, true⟩, ⟨3, true, false, false⟩]
+    start [⟨0, true, false, false, false⟩, ⟨1, false, false, false, false⟩, ⟨2, true, false, true, false⟩, ⟨3, true, false, false, false⟩]
       = ([.init 0, .init 1, .init 2, .init 3, .run 0, .run 2, .close 2, .close 0], .runFailed 2) := by
   decide
 
 example :
-    start [⟨0, true, false, false⟩, ⟨1, false, true, false⟩, ⟨2, true, false, false⟩]
+    start [⟨0, true, false, false, false⟩, ⟨1, false, true, false, false⟩, ⟨2, true, false, false, false⟩]
       = ([.init 0, .init 1, .close 0], .initFailed 1) := by
   decide
 
-example : close [⟨0, true, false, false⟩, ⟨1, false, false, false⟩, ⟨2, true, false, false⟩]
+example : close [⟨0, true, false, false, false⟩, ⟨1, false, false, false, false⟩, ⟨2, true, false, false, false⟩]
       = [.close 2, .close 0] := by decide
 
 example : lookup [[⟨1, 10⟩], [⟨1, 20⟩, ⟨2, 21⟩]] 1 = some 10 ∧
